@@ -68,20 +68,36 @@ def run_one(args) -> dict:
         shutil.rmtree(tmp, ignore_errors=True)
 
 
+LAST: dict = {}
+
+
 def run_selftest(pid: str | None = None, verbose: bool = True, jobs: int = 16) -> int:
     from .mutations import MUTATIONS
 
     pids = all_pids()
-    muts = [m for m in MUTATIONS if pid is None or pid in m["expect"]]
+    muts = [m for m in MUTATIONS if pid is None or pid in m["expect"] or m.get("quiet")]
     if not muts:
         if verbose:
             print(f"[selftest] no mutation registered for {pid}")
         return 0
     baseline = _baseline(pids)
     with ProcessPoolExecutor(max_workers=min(jobs, len(muts))) as ex:
-        results = list(ex.map(run_one, [(m, pids, baseline) for m in muts]))
+        # breaking mutations are evaluated under every property (cross-alarm check); for a single
+        # property the behaviour-preserving variants only need that property's verdict
+        results = list(ex.map(run_one, [(m, ([pid] if (pid and m.get("quiet")) else pids), baseline) for m in muts]))
     applied = [r for r in results if r["status"] != "skipped"]
     failed = [r for r in results if r["status"] == "failed"]
+    LAST.clear()
+    LAST.update(
+        {
+            "variants": len(muts),
+            "applied": len(applied),
+            "failed": [r["id"] for r in failed],
+            "breaking_variants_detected": sorted(r["id"] for r, m in zip(results, muts) if r["status"] == "ok" and not m.get("quiet")),
+            "behaviour_preserving_variants_quiet": sorted(r["id"] for r, m in zip(results, muts) if r["status"] == "ok" and m.get("quiet")),
+            "where": "scratch copies of /repo/cirkit under tempfile.mkdtemp(), removed after each variant",
+        }
+    )
     if verbose:
         print(f"[selftest] property={pid or 'all'} mutations={len(muts)} applied={len(applied)} failed={len(failed)} skipped={len(muts) - len(applied)}")
         for r in results:
